@@ -35,7 +35,9 @@ RULE = ("related pairs generated together: (compound, ρ, λ) with k·ρ; c·cou
         "conversions on log-uniform E, λ, v and vectors; 12% of the structures hold 2..3 same-charge ions of "
         "different isotopes of one element; 300 (quick) compounds holding the same nuclide from the public and from "
         "a private table with revised records in 8..10 orders/groupings/sums; 200 (quick) compounds given as "
-        "2..4 weighted parts whose text forms coincide, parts forwards / backwards / summed; "
+        "2..4 weighted parts whose text forms coincide, parts forwards / backwards / summed, and one calculator applied in "
+        "turn to the weights, the weights x c and the density x k with all three results held and judged afterwards "
+        "(vector entries also against calculators built with each wavelength alone); "
         "D2O_sld / D2O_match of every case by energy= vs wavelength=; natural_density recomputed from the atoms' masses "
         "(keyword and '@..n' spelling); 60 (quick) compounds of a private table whose atoms carry user-defined "
         "neutron records, vector vs scalars vs energies; a case is non-trivial when the compound has "
@@ -549,7 +551,7 @@ def _composite_materials(pt, T, inp):
     return ms
 
 
-def _composite_results(pt, T, inp):
+def _composite_results(pt, T, inp, extra=None):
     """the compound sum_k w_k*material_k at one density: through the calculator for weighted parts with the parts
     listed forwards and backwards, and as the explicitly summed formula -> per wavelength 3 x [re, im, inc], N, tot"""
     import functools
@@ -568,13 +570,60 @@ def _composite_results(pt, T, inp):
         c = [np.broadcast_to(np.asarray(x, dtype=float), (n,)) for x in v]
         return [[float(x[i]) for x in c] for i in range(n)]
 
-    fwd = nsf.neutron_composite_sld(ms, wavelength=warg)(np.array(wts), density=rho)
+    calc = nsf.neutron_composite_sld(ms, wavelength=warg)
+    fwd = calc(np.array(wts), density=rho)
+    fwd_at_once = cols(fwd)
+    if extra is not None:
+        # one calculator used for a series (the result of the first call is held while the same calculator is applied to
+        # all counts x c and then to density x k): the held results obey the same relations
+        k, c = inp.get("k", 2.0), inp.get("c", 3.0)
+        cnt = calc(np.array(wts) * c, density=rho)
+        dens = calc(np.array(wts), density=rho * k)
+        extra["held"] = cols(fwd)
+        extra["counts*c"] = cols(cnt)
+        extra["density*k"] = cols(dens)
+        # every wavelength of the vector on its own ("i-th entries equal the scalar call at the i-th wavelength")
+        extra["scalars"] = [cols(nsf.neutron_composite_sld(ms, wavelength=x)(np.array(wts), density=rho))[0] for x in ws] \
+            if not inp["scalar"] else None
     rev = nsf.neutron_composite_sld(ms[::-1], wavelength=warg)(np.array(wts[::-1]), density=rho)
     mix = functools.reduce(operator.add, [w * m for w, m in zip(wts, ms)])
     direct = nsf.neutron_scattering(mix, density=rho, wavelength=warg)
     full = [nc.scat_tuple(direct)] if inp["scalar"] else nc.scat_vectors(direct, n)
     N = sum(mix.atoms.values()) / (mix.mass / rho / avogadro_number * 1e24)
-    return cols(fwd), cols(rev), [x[:3] for x in full], N, [nc.sigma_total_xs(x) for x in full]
+    return fwd_at_once, cols(rev), [x[:3] for x in full], N, [nc.sigma_total_xs(x) for x in full]
+
+
+def _judge_series(run, inp, extra, direct, N, tot):
+    """the calculator for weighted parts used for a series of calls: the results held from the earlier calls, looked at
+    after the later ones, still obey the invariances (summed formula, counts x c, density x k, vector entry = scalar call)"""
+    k = inp["k"]
+    for j in range(len(inp["ws"])):
+        d = direct[j]
+        if isinstance(d, str):
+            return
+        if not nc.sld_close(extra["held"][j], d, N, tot[j]):
+            run.violation("invariance broken: the SLD of a compound given as weighted parts, held while the same calculator "
+                          "was applied to other weights and densities, differs from neutron_sld of the same atoms summed "
+                          "into one formula (entry %d): %r vs %r" % (j, extra["held"][j], d), inp,
+                          relation="regrouping/reordering", site="weighted-parts-series", variant="held result")
+            return
+        if not nc.sld_close(extra["counts*c"][j], d, N, tot[j]):
+            run.violation("invariance broken: counts scaled by c (all weights of the parts x %r, result held during a later "
+                          "call of the calculator) (entry %d): %r vs %r" % (inp["c"], j, extra["counts*c"][j], d), inp,
+                          relation="counts scaled by c", site="weighted-parts-series", variant="weights*c")
+            return
+        want = [x * k for x in d]
+        if not nc.sld_close(extra["density*k"][j], want, N * k, tot[j] * k):
+            run.violation("invariance broken: density scaled by k = %r through the calculator for weighted parts (entry %d): "
+                          "%r vs k x %r" % (k, j, extra["density*k"][j], d), inp,
+                          relation="density scaled by k", site="weighted-parts-series", variant="density*k")
+            return
+        if extra.get("scalars") is not None and not nc.sld_close(extra["held"][j], extra["scalars"][j], N, tot[j]):
+            run.violation("invariance broken: vector entry %d of the calculator for weighted parts (held during later calls) "
+                          "differs from the calculator built with that wavelength alone: %r vs %r"
+                          % (j, extra["held"][j], extra["scalars"][j]), inp,
+                          relation="vector entry", site="weighted-parts-series", variant="scalar calculators")
+            return
 
 
 def stage_weighted_parts(run, pt, pools, n):
@@ -611,15 +660,17 @@ def stage_weighted_parts(run, pt, pools, n):
         scalar_w = rng.random() < 0.5
         ws = [nc.gen_wavelength(rng, pools) for _ in range(1 if scalar_w else rng.randint(1, 4))]
         inp = dict(kind="weighted-parts", materials=mats, weights=weights, density=nc.gen_density(rng), ws=ws,
-                   scalar=scalar_w)
+                   scalar=scalar_w, k=rng.choice([2.0, 0.5, 3.7, 0.1, 10.0]), c=rng.choice([2.0, 3.0, 0.5, 10.0, 2.5]))
         run.count(key=("weighted-parts", repr(mats), repr(weights), inp["density"], repr(ws), scalar_w), nontrivial=True,
                   tag="weighted-parts:" + kind, sample=inp if i < 2 else None)
+        extra = {}
         try:
-            fwd, rev, direct, N, tot = _composite_results(pt, T, inp)
+            fwd, rev, direct, N, tot = _composite_results(pt, T, inp, extra)
         except Exception as e:  # noqa
             run.violation("a compound given as weighted parts raises %s: %s" % (type(e).__name__, e), inp,
                           relation="regrouping/reordering", site="weighted-parts")
             continue
+        _judge_series(run, inp, extra, direct, N, tot)
         for j in range(len(ws)):
             if not nc.sld_close(fwd[j], rev[j], N, tot[j]):
                 run.violation("invariance broken: the SLD of a compound given as weighted parts changes when the parts are "
@@ -758,7 +809,10 @@ def replay(data) -> int:
                 print("  %-34s %s" % (name, r))
             continue
         if inp.get("kind") == "weighted-parts" and "materials" in inp:
-            fwd, rev, direct, N, tot = _composite_results(pt, nc.revised_private_table(), inp)
+            extra = {} if "k" in inp else None
+            fwd, rev, direct, N, tot = _composite_results(pt, nc.revised_private_table(), inp, extra)
+            for name, v in (extra or {}).items():
+                print("  series, %-10s:" % name, v)
             print("  parts as listed  :", fwd)
             print("  parts reversed   :", rev)
             print("  summed formula   :", direct)
